@@ -219,7 +219,7 @@ pub fn sweep<C: Sync + Clone, FE, FJ>(
                 }
             }
             for (k, c) in chunk.iter().enumerate() {
-                let single = if ended[k] {
+                let mut single = if ended[k] {
                     ChildResult {
                         exit: crate::runner::Exit::Code(0),
                         records: std::mem::take(&mut per[k]),
@@ -229,6 +229,17 @@ pub fn sweep<C: Sync + Clone, FE, FJ>(
                     // the child died in or before this case: attribute by re-running it alone
                     run_one(cfg, |em| exec(c, em))
                 };
+                if single.exit == crate::runner::Exit::Hung {
+                    // "no progress within the budget" can also be a starved machine: executions are
+                    // deterministic, so a real hang hangs again with four times the patience
+                    let patient = RunCfg { parallel: cfg.parallel, hang_after: cfg.hang_after * 4, max_wall: cfg.max_wall * 4 };
+                    let again = run_one(&patient, |em| exec(c, em));
+                    if again.exit != crate::runner::Exit::Hung {
+                        rep.notes.push("a case that made no progress within the hang budget completed when re-run alone with four times the budget (machine load); the re-run is the observation".into());
+                        rep.notes.dedup();
+                        single = again;
+                    }
+                }
                 rep.evaluations += 1;
                 rep.outcomes.insert(outcome_digest(&single));
                 let before = rep.violations.len();
